@@ -17,7 +17,9 @@ defines), Resource._capacity/_available via the public properties, Network
 from __future__ import annotations
 
 from hsverif.coq import Ctor, SomeV, term
-from hsverif.family import Family, merge_stats, run_family
+import json
+
+from hsverif.family import Family, merge_stats, run_family, run_oracle_only
 
 IMPORTS = "From HS Require Import Base.Prelude C06.Model."
 LEVEL = "proof"
@@ -455,6 +457,77 @@ def nontrivial_part(c, obs):
     fs = c["faults"]
     return any(i != j and covers(b, a["s"]) and (part_pairs(a)[0] & part_pairs(b)[0] or part_pairs(a)[1] & part_pairs(b)[1])
                for i, a in enumerate(fs) for j, b in enumerate(fs))
+
+
+# --------------------------------------------------------------------------- RandomPartition next to a fixed partition (oracle only)
+def gen_randpart(rng):
+    s = rng.choice([1, 2, 3]) * S
+    return dict(s=s, e=s + rng.choice([4, 8, 16]) * S, mtbf=rng.choice([0.5, 1.0, 2.0]), mttr=rng.choice([0.25, 0.5, 1.0]),
+                seed=rng.randrange(1000), asym=rng.random() < 0.3)
+
+
+def impl_randpart(c):
+    """NetworkPartition {n0,n1}|{n2} over [s,e) and, on OTHER nodes {n3,n4,n5}, a RandomPartition that splits and
+    heals at random instants.  Sampled every 125 ms: which pairs are partitioned."""
+    from happysimulator.components.network.link import NetworkLink
+    from happysimulator.components.network.network import Network
+    from happysimulator.core.entity import Entity
+    from happysimulator.core.simulation import Simulation
+    from happysimulator.core.temporal import Instant
+    from happysimulator.distributions.constant import ConstantLatency
+    from happysimulator.faults import FaultSchedule, NetworkPartition, RandomPartition
+
+    class Node(Entity):
+        def handle_event(self, event):
+            return None
+
+    nodes = [Node(f"n{x}") for x in range(6)]
+    net = Network("net", default_link=None)
+    for a in range(6):
+        for b in range(6):
+            if a != b:
+                net.add_link(nodes[a], nodes[b], NetworkLink(f"l{a}{b}", latency=ConstantLatency(0.01)))
+    fs = FaultSchedule()
+    fs.add(NetworkPartition(["n0", "n1"], ["n2"], start=secs(c["s"]), end=secs(c["e"]), asymmetric=c["asym"]))
+    fs.add(RandomPartition(nodes=["n3", "n4", "n5"], mtbf=c["mtbf"], mttr=c["mttr"], seed=c["seed"]))
+    end = c["e"] + 2 * S
+    sim = Simulation(end_time=Instant(end), entities=nodes + [net], fault_schedule=fs)
+    samples = []
+
+    def probe(t):
+        samples.append([t, [[a, b] for a in range(6) for b in range(6) if a != b and net.is_partitioned(f"n{a}", f"n{b}")]])
+        return []
+
+    add_probes(sim, list(range(S // 16, end, S // 8)), probe)
+    sim.run()
+    return dict(samples=samples)
+
+
+def oracle_randpart(c, obs):
+    fixed = {(0, 2), (1, 2)} | (set() if c["asym"] else {(2, 0), (2, 1)})
+    flips = 0
+    prev = None
+    for t, pairs in obs["samples"]:
+        ps = {tuple(p) for p in pairs}
+        inside = c["s"] <= t < c["e"]
+        rnd = {p for p in ps if p[0] >= 3 and p[1] >= 3}
+        if prev is not None and rnd != prev:
+            flips += 1
+        prev = rnd
+        cross = {p for p in ps if (p[0] >= 3) != (p[1] >= 3)}
+        if cross:
+            return [dict(clause="a fault isolates only its target: pairs between the two faults' node sets are never partitioned", t=t, pairs=sorted(cross))]
+        got_fixed = {p for p in ps if p[0] < 3 and p[1] < 3}
+        if inside and got_fixed != fixed:
+            return [dict(clause="a partition is in force throughout its window whatever an unrelated random partition on other nodes does",
+                         t=t, expected=sorted(fixed), got=sorted(got_fixed))]
+        if not inside and got_fixed:
+            return [dict(clause="once its window has ended the fixed partition is gone", t=t, got=sorted(got_fixed))]
+    return []
+
+
+FAM_RANDPART = Family("randpart", "", "", "", gen_randpart, impl_randpart, lambda c, o: "", oracle_randpart,
+                      nontrivial=lambda c, o: len({json.dumps(sorted(p for p in ps if p[0] >= 3)) for _, ps in o["samples"]}) >= 2)
 
 
 # --------------------------------------------------------------------------- capacity
@@ -920,6 +993,7 @@ def run(ctx):
         st = run_family(ctx, enum_fam, len(cases), search_factor=0)
         st["family"] = "reg(enumerated)"
         stats.append(st)
+    ctx.coverage["oracle_only_families"] = [run_oracle_only(ctx, FAM_RANDPART, ctx.n(40, 400))]
     merge_stats(ctx, stats, "random fault schedules (1-5 faults, endpoints from a pool of <= 6 instants, cancels, permanent crashes); non-trivial = two windows on one target overlap; distinct by JSON of the input")
     ctx.finish_obligations()
     ctx.assumptions += [
@@ -927,12 +1001,12 @@ def run(ctx):
         "'in effect whatever other faults overlap it' is refuted for all five kinds (c06_*_overlap_refuted; findings C06-overlap-crash/-lat/-loss/-part/-cap); proved for strictly separated windows (c06_effect_while_active_partial, c06_partition_while_active_partial); 'no effect outside windows / back to configured' is proved for every schedule",
         "'executes nothing while crashed' is refuted for in-flight processes and for queue-fronted targets (findings C06-inflight-process-runs-while-crashed, C06-queued-work-starts-while-crashed); proved: no handler entry while the flag is set, only work that arrived while up is executed",
         "capacity accounting available + held = capacity is refuted with a single window (C06-capacity-held-ignored); proved: 0 <= available <= capacity <= configured for all schedules and workloads, exact accounting when activations find the resource idle",
-        "float arithmetic of the closures (extra_ms/1000, original*factor, min(1.0, a+b)) is exercised on a dyadic grid only; RandomPartition is not modelled; QueuedResource is modelled as a one-slot FIFO server (queue/driver internals belong to C08)",
+        "float arithmetic of the closures (extra_ms/1000, original*factor, min(1.0, a+b)) is exercised on a dyadic grid only; RandomPartition is not modelled (oracle-only family randpart: a fixed partition next to a random one on other nodes); QueuedResource is modelled as a one-slot FIFO server (queue/driver internals belong to C08)",
     ]
 
 
 def replay(data):
-    fam = {f.name: f for f in FAMILIES}[data["detail"]["family"]]
+    fam = {f.name: f for f in FAMILIES + [FAM_RANDPART]}[data["detail"]["family"]]
     c = data["detail"]["case"]
     obs = fam.impl(c)
     fails = fam.oracle(c, obs)
